@@ -274,7 +274,7 @@ pub fn family_b(kind: u32, target: u64, extra: u32) -> Case {
     let payload = target - 16;
     let n_big = (payload / big as u64) as u32 - 1;
     for i in 0..n_big {
-        ops.push(BOp { track: 1, size: big, fill: 1 + (i % 200) as u8, dur: ts, cts: 0, sync: i % 8 == 0 });
+        ops.push(BOp { track: 1, size: big, fill: 1 + (i % 4) as u8, dur: ts, cts: 0, sync: i % 8 == 0 });
     }
     let rest = payload - n_big as u64 * big as u64;
     // split the rest into two samples so that one of them straddles nothing special
